@@ -9,6 +9,7 @@
 (*   v3 title starting with "b", in a block quote, ATX                     *)
 (*   v5 title containing "x", top level, ATX with closing hashes           *)
 (*   v6 title starting with "b", in a list item, setext (levels 1-2)       *)
+(*   v8 plain title, top level, setext with the underline indented by two *)
 (*   v7 the same plain title whatever the position, top level, ATX (two    *)
 (*      headings of one document may carry the same text at different      *)
 (*      levels: whether a heading qualifies is decided per heading)        *)
@@ -35,6 +36,7 @@ Variants == VariantSet      \* subset of 1..6
 Word(i) == <<"one", "two", "three", "four", "five", "six">>[i]
 Title(i, v) == CASE v \in {1, 4} -> Word(i) \o " plain"
                  [] v = 7 -> "same title"
+                 [] v = 8 -> Word(i) \o " under"
                  [] v \in {2, 5} -> "ex" \o Word(i) \o " box"
                  [] v \in {3, 6} -> "b" \o Word(i) \o " word"
 HasX(v)    == v \in {2, 5}
@@ -43,11 +45,11 @@ StartsB(v) == v \in {3, 6}
 Hashes(n) == SubSeq("######", 1, n)
 Prefix(v) == CASE v = 3 -> "> " [] v \in {4, 6} -> "- " [] OTHER -> ""
 Cont(v)   == CASE v = 3 -> "> " [] v \in {4, 6} -> "  " [] OTHER -> ""
-Setext(v, lvl) == v \in {2, 6} /\ lvl <= 2
+Setext(v, lvl) == v \in {2, 6, 8} /\ lvl <= 2
 
 HeadingSrc(i, v, lvl) ==
     IF Setext(v, lvl)
-    THEN Prefix(v) \o Title(i, v) \o "\n" \o Cont(v) \o (IF lvl = 1 THEN "===" ELSE "---") \o "\n"
+    THEN Prefix(v) \o Title(i, v) \o "\n" \o Cont(v) \o (IF v = 8 THEN "  " ELSE "") \o (IF lvl = 1 THEN "===" ELSE "---") \o "\n"      \* (v8: the underline is indented)
     ELSE Prefix(v) \o Hashes(lvl) \o " " \o Title(i, v) \o (IF v = 5 THEN " ##" ELSE "") \o "\n"
 
 RECURSIVE Src(_, _, _)
